@@ -200,6 +200,22 @@ pub fn entries() -> Vec<Entry> {
     v.push(bytes_entry!("common::OpCert::try_from_bytes", false, OpCert, |b| <OpCert as TryFromBytes>::try_from_bytes(b), |x| canon(x)));
     v.push(bytes_entry!("common::MKProof::from_bytes", false, MKProof, |b| MKProof::from_bytes(b), |x| canon(x)));
     v.push(bytes_entry!("common::MKMapProof<BlockRange>::from_bytes", false, MKMapProof<BlockRange>, |b| MKMapProof::<BlockRange>::from_bytes(b), |x| canon(x)));
+    // decode followed by the proof's own verify(): what a client does next with an untrusted proof.
+    // Not a decoder: diagnostic only (reported to the owners of C09/C11, never a C05 violation).
+    v.push(bytes_entry!(
+        "diag::MKProof::from_bytes+verify",
+        true,
+        bool,
+        |b| MKProof::from_bytes(b).map(|p| p.verify().is_ok()),
+        |x| format!("{x}")
+    ));
+    v.push(bytes_entry!(
+        "diag::MKMapProof<BlockRange>::from_bytes+verify",
+        true,
+        bool,
+        |b| MKMapProof::<BlockRange>::from_bytes(b).map(|p| p.verify().is_ok()),
+        |x| format!("{x}")
+    ));
     v.push(bytes_entry!("common::SignedEntityType::try_from_bytes", false, SignedEntityType, |b| <SignedEntityType as TryFromBytes>::try_from_bytes(b), |x| canon(x)));
     v.push(bytes_entry!(
         "common::RegisterSignatureMessageDmq::try_from_bytes",
